@@ -2475,6 +2475,364 @@ def correspondence(ctx, prog, old, new, answer):
 
 
 # ---------------------------------------------------------------------------------------------
+# Fourier half, tied to Model/FourierSwitch.lean: backend selection (`_make_func`) over recording fake
+# backends, and the cache state of reused MFT / NFT objects
+
+SEL_FUNCS = {   # name -> (needs real input, 2-d)
+    'fft': (False, False), 'ifft': (False, False), 'fft2': (False, True), 'ifft2': (False, True), 'fftn': (False, True),
+    'ifftn': (False, True), 'rfft': (True, False), 'irfft': (False, False), 'rfft2': (True, True), 'irfft2': (False, True),
+    'rfftn': (True, True), 'irfftn': (False, True), 'hfft': (False, False), 'ihfft': (True, False),
+}
+SEL_DTYPES = {   # dtype -> (model class, real?)
+    'float16': ('half', True), 'float32': ('single', True), 'float64': ('double', True), 'longdouble': ('longdouble', True),
+    'complex64': ('single', False), 'complex128': ('double', False), 'clongdouble': ('longdouble', False),
+    'int64': ('integer', True), 'bool': ('integer', True), 'int16': ('integer', True),
+}
+SEL_PREC = {'float32': 'single', 'complex64': 'single', 'float64': 'double', 'complex128': 'double',
+            'float128': 'longdouble', 'complex256': 'longdouble'}
+SEL_NAMES = ['mkl', 'fftw', 'scipy', 'numpy']
+
+
+def gen_select_case(rng, directed=None):
+    if directed is not None:
+        return directed
+    names = SEL_NAMES + ['bogus']
+    nm = int(rng.choice([0, 1, 1, 2, 3, 4, 5]))
+    use_method_arg = bool(rng.random() < 0.2)
+    methods = [str(rng.choice(names)) for _ in range(1 if use_method_arg else nm)]
+    cpu = int(rng.choice([1, 2, 4, 16]))
+    threads = None if rng.random() < 0.55 else int(rng.choice([1, 2, 3, cpu]))
+    big = bool(rng.random() < 0.12)
+    func = str(rng.choice(sorted(SEL_FUNCS)))
+    need_real, _ = SEL_FUNCS[func]
+    dts = [d for d in SEL_DTYPES if SEL_DTYPES[d][1] or not need_real]
+    w = np.array([6.0 if d in ('float32', 'float64', 'complex64', 'complex128') else 1.0 for d in dts])
+    dtype = str(rng.choice(dts, p=w / w.sum()))
+    if big:
+        dtype = str(rng.choice(['complex64', 'float32'] if not need_real else ['float32']))
+    fails = []
+    attempts = sorted(set([cpu, 1] + ([threads] if threads is not None else [])))
+    for m in SEL_NAMES:
+        r = rng.random()
+        if r < 0.25:
+            fails += [[m, t] for t in attempts]            # raises whatever the number of workers
+        elif r < 0.45 and m in ('fftw', 'scipy'):
+            fails.append([m, int(rng.choice(attempts))])   # raises for one number of workers only
+    return {'func': func, 'dtype': dtype, 'methods': methods, 'method_arg': use_method_arg, 'cpu': cpu, 'threads': threads, 'big': big,
+            'mkl': bool(rng.random() < 0.5), 'fftw': bool(rng.random() < 0.5), 'fails': fails}
+
+
+SELECT_DIRECTED = [
+    # the audit's side finding: an explicit threads= (UnboundLocalError before D190)
+    {'func': 'fft', 'dtype': 'float64', 'methods': ['scipy'], 'method_arg': False, 'cpu': 4, 'threads': 1, 'big': False, 'mkl': False, 'fftw': False, 'fails': []},
+    {'func': 'fft2', 'dtype': 'complex64', 'methods': ['fftw', 'numpy'], 'method_arg': False, 'cpu': 4, 'threads': 3, 'big': False, 'mkl': False, 'fftw': True, 'fails': [['fftw', 3]]},
+    # big input: the multithreaded attempt fails for every backend, the single-threaded one works
+    {'func': 'fft2', 'dtype': 'complex64', 'methods': ['fftw', 'scipy'], 'method_arg': False, 'cpu': 16, 'threads': None, 'big': True, 'mkl': False, 'fftw': True,
+     'fails': [['fftw', 16], ['scipy', 16]]},
+    # nothing works: ValueError after both thread attempts
+    {'func': 'ifft', 'dtype': 'complex128', 'methods': ['mkl', 'scipy', 'numpy'], 'method_arg': False, 'cpu': 2, 'threads': None, 'big': True, 'mkl': True, 'fftw': False,
+     'fails': [['mkl', 1], ['mkl', 2], ['scipy', 1], ['scipy', 2], ['numpy', 1], ['numpy', 2]]},
+    # unavailable modules and unknown names are skipped silently; empty list
+    {'func': 'rfft', 'dtype': 'float32', 'methods': ['mkl', 'bogus', 'fftw', 'numpy'], 'method_arg': False, 'cpu': 4, 'threads': None, 'big': False, 'mkl': False, 'fftw': False, 'fails': []},
+    {'func': 'fft', 'dtype': 'float64', 'methods': [], 'method_arg': False, 'cpu': 4, 'threads': None, 'big': False, 'mkl': True, 'fftw': True, 'fails': []},
+    # the numpy branch casts: non-standard depths differ from the other backends (accepted divergence)
+    {'func': 'fft', 'dtype': 'float16', 'methods': ['numpy'], 'method_arg': True, 'cpu': 4, 'threads': None, 'big': False, 'mkl': False, 'fftw': False, 'fails': []},
+    {'func': 'irfft', 'dtype': 'clongdouble', 'methods': ['scipy', 'numpy'], 'method_arg': False, 'cpu': 4, 'threads': None, 'big': False, 'mkl': False, 'fftw': False, 'fails': [['scipy', 1], ['scipy', 4]]},
+]
+
+
+def _select_input(case):
+    _, two_d = SEL_FUNCS[case['func']]
+    n = 65536 if case['big'] else 16
+    k = np.arange(n, dtype=float)
+    base = ((k * 7) % 11 - 5.0) / 4.0
+    dt = np.dtype(case['dtype'])
+    if dt.kind == 'c':
+        x = (base + 1j * (((k * 3) % 5) - 2.0) / 2.0).astype(dt)
+    elif dt.kind == 'b':
+        x = (base > 0)
+    else:
+        x = base.astype(dt)
+    return x.reshape((256, 256) if case['big'] else (4, 4)) if two_d else x
+
+
+def run_select_real(case):
+    """call the real `_make_func` closure, re-made over recording fake backends; returns the observation"""
+    import types
+    import scipy.fft as _sfft
+    from hcipy._math import fft as F
+    func_name = case['func']
+    log = []
+    fails = set((m, t) for m, t in case['fails'])
+    all_t = sorted(set([case['cpu'], 1] + ([case['threads']] if case['threads'] is not None else [])))
+
+    def backend(name, real, takes_workers):
+        def fake(x, *args, **kw):
+            w = kw.pop('workers', None)
+            kw.pop('overwrite_x', None)
+            if (w is not None) != takes_workers:
+                raise MachineryError('fake %s called with workers=%r' % (name, w))
+            log.append((name, w))
+            bad = ((name, w) in fails) if takes_workers else all((name, t) in fails for t in all_t)
+            if bad:
+                raise RuntimeError('injected failure of %s' % name)
+            return real(x, *args, **kw)
+        fake.__name__ = func_name
+        return fake
+
+    sreal = getattr(_sfft, func_name)
+    nreal = getattr(np.fft, func_name)
+    saved = {k: getattr(F, k) for k in ('mkl_fft', 'pyfftw', 'scipy', 'np', '_CPU_COUNT')}
+    x = _select_input(case)
+    x0 = x.copy()
+    obs = {}
+    try:
+        F.mkl_fft = types.SimpleNamespace(**{func_name: backend('mkl', sreal, False)}) if case['mkl'] else None
+        F.pyfftw = types.SimpleNamespace(interfaces=types.SimpleNamespace(scipy_fft=types.SimpleNamespace(**{func_name: backend('fftw', sreal, True)}))) if case['fftw'] else None
+        F.scipy = types.SimpleNamespace(fft=types.SimpleNamespace(**{func_name: backend('scipy', sreal, True)}))
+        F.np = types.SimpleNamespace(fft=types.SimpleNamespace(**{func_name: backend('numpy', nreal, False)}))
+        F._CPU_COUNT = case['cpu']
+        func = F._make_func(func_name)
+        kw = {}
+        if case['threads'] is not None:
+            kw['threads'] = case['threads']
+        with warnings.catch_warnings(record=True) as wlist:
+            warnings.simplefilter('always')
+            try:
+                if case['method_arg']:
+                    res = func(x, method=case['methods'][0], **kw)
+                else:
+                    with config(method=case['methods']):
+                        res = func(x, **kw)
+                obs['dtype'] = str(res.dtype)
+                obs['res'] = res
+            except Exception as e:  # noqa
+                obs['error'] = type(e).__name__
+                obs['msg'] = str(e)[:120]
+        obs['warns'] = len([w for w in wlist if 'FFT method' in str(w.message) or 'raised an exception' in str(w.message)])
+        obs['rounds'] = len([w for w in wlist if 'could be found using' in str(w.message)])
+    finally:
+        for k, v in saved.items():
+            setattr(F, k, v)
+    obs['calls'] = list(log)
+    obs['intact'] = bool(np.array_equal(x, x0))
+    obs['ref'] = sreal(x0)
+    return obs
+
+
+def select_line(case):
+    toks = ['C19', 'select', str(case['cpu']), '1' if case['mkl'] else '0', '1' if case['fftw'] else '0',
+            ','.join(case['methods']) if case['methods'] else '-', '-' if case['threads'] is None else str(case['threads']),
+            '1' if case['big'] else '0', SEL_DTYPES[case['dtype']][0]]
+    toks += ['%s.%d' % (m, t) for m, t in case['fails']]
+    return ' '.join(toks)
+
+
+def select_oracle(case, obs):
+    """the property on the real observation (no model): list of (key, what)"""
+    bad = []
+    usable = {'mkl': case['mkl'], 'fftw': case['fftw'], 'scipy': True, 'numpy': True}
+    fails = set((m, t) for m, t in case['fails'])
+    attempts = [case['threads']] if case['threads'] is not None else ([case['cpu'], 1] if case['big'] else [1])
+    some_works = any(usable.get(m, False) and (m, t) not in fails for t in attempts for m in case['methods'])
+    tag = 'threads=%s' % ('None' if case['threads'] is None else 'n')
+    if 'error' in obs:
+        if obs['error'] != 'ValueError' or 'No suitable' not in obs['msg']:
+            bad.append(('select raises %s %s' % (obs['error'], tag),
+                        'hcipy._math.fft.%s(x, threads=%r) with methods %r raises %s: %s' % (case['func'], case['threads'], case['methods'], obs['error'], obs['msg'])))
+        elif some_works:
+            bad.append(('select gives-up %s' % tag, '%s raises ValueError although a listed backend works: methods %r, failing %r' % (case['func'], case['methods'], case['fails'])))
+        return bad
+    if not some_works:
+        bad.append(('select returns-without-backend', '%s returned a result although no listed backend works' % case['func']))
+        return bad
+    if not obs['intact']:
+        bad.append(('select input-modified', '%s modified its input' % case['func']))
+    ref, res = obs['ref'], obs['res']
+    standard = SEL_DTYPES[case['dtype']][0] in ('single', 'double', 'integer')
+    if standard and str(res.dtype) != str(ref.dtype):
+        bad.append(('select dtype %s' % obs['calls'][-1][0], '%s on %s input returns %s through backend %s, %s through the reference backend' % (
+            case['func'], case['dtype'], res.dtype, obs['calls'][-1][0], ref.dtype)))
+    tol = 2e-3 if case['dtype'] == 'float16' else (5e-5 if min(res.dtype.itemsize, ref.dtype.itemsize) <= 8 and res.dtype.kind == 'c' or res.dtype.itemsize <= 4 else 1e-10)
+    scale = max(float(np.max(np.abs(ref))), 1e-300)
+    if res.shape != ref.shape or not float(np.max(np.abs(res.astype(np.complex128) - ref.astype(np.complex128)))) <= tol * scale:
+        bad.append(('select values %s' % obs['calls'][-1][0], '%s through backend %s differs from the reference backend' % (case['func'], obs['calls'][-1][0])))
+    return bad
+
+
+def check_select(ctx, case, answer=None):
+    obs = run_select_real(case)
+    bad = select_oracle(case, obs)
+    if ctx is not None:
+        ctx.count('select:threads=%s' % ('None' if case['threads'] is None else 'explicit'))
+        ctx.count('select:big' if case['big'] else 'select:small')
+        ctx.count('select:outcome=%s' % (obs.get('error') or (obs['calls'][-1][0] if obs['calls'] else '?')))
+        ctx.count('select:calls=%d' % len(obs['calls']))
+        ctx.count('select:dtype=%s' % SEL_DTYPES[case['dtype']][0])
+        if 'res' in obs and SEL_DTYPES[case['dtype']][0] in ('half', 'longdouble') and str(obs['res'].dtype) != str(obs['ref'].dtype):
+            ctx.count('accepted-divergence:fft-bit-depth-%s-through-numpy' % SEL_DTYPES[case['dtype']][0])
+    return obs, bad
+
+
+def select_correspondence(ctx, case, obs, answer):
+    ctx.traces_validated += 1
+    if not answer.startswith('ok '):
+        ctx.disagree('C19 select', {'case': case, 'model': answer})
+        return
+    m = dict(t.split('=', 1) for t in answer.split()[1:])
+    if 'error' in obs:
+        sel = 'E:value' if obs['error'] == 'ValueError' else 'E:' + obs['error']
+        prec, workers = '-', '-'
+    else:
+        last = obs['calls'][-1] if obs['calls'] else ('?', None)
+        # the thread attempt of the successful call: one "no method with n threads" warning per exhausted attempt
+        attempts = [case['threads']] if case['threads'] is not None else ([case['cpu'], 1] if case['big'] else [1])
+        sel = last[0] + '.' + (str(attempts[obs['rounds']]) if obs['rounds'] < len(attempts) else '?')
+        prec = SEL_PREC.get(obs['dtype'], obs['dtype'])
+        workers = '-' if last[1] is None else str(last[1])
+    # calls: the fakes of mkl/numpy do not see the number of threads; compare names, and workers where passed
+    mcalls = [] if m['calls'] == '-' else [c.split('.') for c in m['calls'].split(',')]
+    rcalls = obs['calls']
+    same_calls = len(mcalls) == len(rcalls) and all(mc[0] == rc[0] and (rc[1] is None or int(mc[1]) == rc[1]) for mc, rc in zip(mcalls, rcalls))
+    if sel != m['sel'] or not same_calls or int(m['warns']) != obs['warns'] or prec != m['prec'] or workers != m['workers']:
+        ctx.disagree('C19 select vs _make_func', {'case': case, 'model': answer,
+                                                'impl': {'sel': sel, 'calls': rcalls, 'warns': obs['warns'], 'prec': prec, 'workers': workers}})
+
+
+def run_select_tie(ctx):
+    rng = ctx.rng
+    cases = list(SELECT_DIRECTED) + [gen_select_case(rng) for _ in range(ctx.scale(400, 6000))]
+    lines, done = [], []
+    for case in cases:
+        obs, bad = check_select(ctx, case)
+        ctx.case(None, nontrivial_key=('select', case['func'], tuple(case['methods']), case['threads'], case['big'], len(case['fails'])) if case['methods'] else None)
+        for key, what in bad[:1]:
+            ctx.violation(key, what, {'select': case})
+        lines.append(select_line(case))
+        done.append((case, obs))
+    out = ctx.model(lines)
+    for (case, obs), ans in zip(done, out):
+        select_correspondence(ctx, case, obs, ans)
+    # the unpatched backends on one input above the 256x256 threshold (two thread attempts in the real code)
+    from hcipy._math import fft as F
+    x = _select_input({'func': 'fft2', 'big': True, 'dtype': 'complex64'})
+    ref = None
+    for meth in METHODS:
+        with config(method=meth), warnings.catch_warnings():
+            warnings.simplefilter('error')
+            r = F.fft2(x)
+        ctx.count('select:real-big')
+        if ref is None:
+            ref = r
+        elif r.dtype != ref.dtype or not np.max(np.abs(r - ref)) <= 2e-4 * np.max(np.abs(ref)):
+            ctx.violation('select real-big %s' % '+'.join(meth), 'fft2 of a 256x256 complex64 array differs between method lists %r and %r' % (METHODS[0], meth),
+                          {'select_real_big': meth})
+
+
+# --- cache state of reused MFT / NFT objects -----------------------------------------------------
+
+def gen_cache_script(rng, n):
+    return [[str(rng.choice(['f', 'b'])), int(rng.choice([64, 128]))] for _ in range(n)]
+
+
+CACHE_DIRECTED = [[['f', 64], ['f', 128], ['b', 128], ['b', 64]], [['b', 128], ['b', 128], ['f', 64], ['f', 64], ['b', 128]]]
+
+
+def _cache_grids(params):
+    import hcipy
+    n, m = params['n'], params['m']
+    pupil = hcipy.make_pupil_grid([n, n + params['odd']], [1.0, 1.5])
+    focal = hcipy.CartesianGrid(hcipy.SeparatedCoords([np.linspace(-3, 3, m) * (1 + 0.1 * np.arange(m) / m), np.linspace(-2, 2, m + 1)]))
+    return pupil, focal
+
+
+def run_cache_real(kind, params, pre, alloc, via_config, new_style, script):
+    """one real object reused over the script; per call: (state string, relative error vs fresh object, dtype ok)"""
+    import hcipy
+    rows = []
+    with config(new_style=new_style):
+        pupil, focal = _cache_grids(params)
+        def make(pre_, alloc_):
+            if kind == 'mft':
+                return hcipy.MatrixFourierTransform(pupil, focal, precompute_matrices=pre_, allocate_intermediate=alloc_)
+            return hcipy.NaiveFourierTransform(pupil, focal, precompute_matrices=pre_)
+        if via_config:
+            with config(mft_pre=pre, mft_alloc=alloc, nft_pre=pre):
+                obj = make(None, None)
+        else:
+            obj = make(pre, alloc)
+        for i, (d, p) in enumerate(script):
+            grid = pupil if d == 'f' else focal
+            k = np.arange(grid.size, dtype=float)
+            vals = (((k * 5 + i) % 7) - 3.0) / 4.0 + 1j * ((((k + 2 * i) * 3) % 5) - 2.0) / 8.0
+            cdt = 'complex64' if p == 64 else 'complex128'
+            fld = hcipy.Field(vals.astype(cdt), grid)
+            fresh = make(False, False)
+            with warnings.catch_warnings():
+                warnings.simplefilter('error')
+                r = (obj.forward if d == 'f' else obj.backward)(fld)
+                f = (fresh.forward if d == 'f' else fresh.backward)(fld.copy())
+            ra, fa = np.asarray(r), np.asarray(f)
+            err = float(np.max(np.abs(ra - fa))) / max(float(np.max(np.abs(fa))), 1e-300)
+            key = lambda dt: '-' if dt is None else {'complex64': '64', 'complex128': '128'}.get(str(np.dtype(dt)), str(dt))
+            if kind == 'mft':
+                state = 'm%si%s' % (key(obj.matrices_dtype), key(obj.intermediate_dtype))
+                consistent = ((obj.M1 is None) == (obj.matrices_dtype is None) and (obj.M2 is None) == (obj.M1 is None)
+                              and (obj.intermediate_array is None) == (obj.intermediate_dtype is None)
+                              and (obj.M1 is None or str(obj.M1.dtype) == str(np.dtype(obj.matrices_dtype)))
+                              and (obj.intermediate_array is None or str(obj.intermediate_array.dtype) == str(np.dtype(obj.intermediate_dtype))))
+            else:
+                state = 'f%db%d' % (obj._matrix_forward is not None, obj._matrix_backward is not None)
+                consistent = True
+            rows.append({'state': state, 'err': err, 'dtype_ok': str(ra.dtype) == cdt and str(fa.dtype) == cdt, 'consistent': consistent,
+                         'grid_ok': is_field(r) and r.grid == (focal if d == 'f' else pupil) and type(r) is type(f)})
+    return rows
+
+
+def check_cache(ctx, kind, params, pre, alloc, via_config, new_style, script):
+    rows = run_cache_real(kind, params, pre, alloc, via_config, new_style, script)
+    bad = []
+    sw = 'pre=%d' % pre + (' alloc=%d' % alloc if kind == 'mft' else '')
+    for i, (row, (d, p)) in enumerate(zip(rows, script)):
+        tol = 5e-4 if p == 64 else 1e-9
+        if not row['err'] <= tol:
+            bad.append(('cache %s values %s' % (kind, sw), 'call %d (%s, complex%d) on the reused %s object (%s) differs by %.3g relative from a fresh object with the switches off' % (
+                i, d, p, kind, sw, row['err'])))
+        elif not row['dtype_ok'] or not row['grid_ok']:
+            bad.append(('cache %s type %s' % (kind, sw), 'call %d (%s, complex%d) on the reused %s object (%s): result dtype / Field type / grid differs from a fresh object' % (i, d, p, kind, sw)))
+        elif not row['consistent']:
+            bad.append(('cache %s state %s' % (kind, sw), 'after call %d (%s, complex%d) the recorded dtypes of the %s object (%s) do not describe its arrays: %s' % (i, d, p, kind, sw, row['state'])))
+    return rows, bad
+
+
+def run_cache_tie(ctx):
+    rng = ctx.rng
+    lines, done = [], []
+    for kind in ('mft', 'nft'):
+        scripts = [list(sc) for sc in CACHE_DIRECTED] + [gen_cache_script(rng, int(rng.integers(3, 9))) for _ in range(ctx.scale(6, 60))]
+        for si, script in enumerate(scripts):
+            params = {'n': int(rng.choice([4, 5, 6, 8])), 'm': int(rng.choice([3, 5, 6])), 'odd': int(rng.integers(0, 2))}
+            for pre, alloc in ([(a, b) for a in (False, True) for b in (False, True)] if kind == 'mft' else [(False, False), (True, False)]):
+                via_config = bool((si + pre + alloc) % 2)
+                new_style = bool(rng.integers(0, 2))
+                rows, bad = check_cache(ctx, kind, params, pre, alloc, via_config, new_style, script)
+                ctx.count('cache:%s pre=%d alloc=%d' % (kind, pre, alloc))
+                ctx.count('cache-calls', len(script))
+                ctx.case(None, nontrivial_key=('cache', kind, pre, alloc, tuple(map(tuple, script))))
+                for key, what in bad[:1]:
+                    ctx.violation(key, what, {'cache': kind, 'params': params, 'pre': pre, 'alloc': alloc, 'via_config': via_config, 'new_style': new_style, 'script': script})
+                toks = ['C19', kind, '1' if pre else '0'] + (['1' if alloc else '0'] if kind == 'mft' else []) + ['%s.%d' % (d, p) for d, p in script]
+                lines.append(' '.join(toks))
+                done.append((kind, params, pre, alloc, script, rows))
+    out = ctx.model(lines)
+    for (kind, params, pre, alloc, script, rows), ans in zip(done, out):
+        ctx.traces_validated += 1
+        impl = ' '.join('%s/%s' % (r['state'], 'fresh' if r['err'] <= (5e-4 if p == 64 else 1e-9) else 'stale') for r, (d, p) in zip(rows, script))
+        if ans != 'ok ' + impl:
+            ctx.disagree('C19 %s cache vs model' % kind, {'kind': kind, 'params': params, 'pre': pre, 'alloc': alloc, 'script': script, 'impl': impl, 'model': ans})
+
+
+# ---------------------------------------------------------------------------------------------
 # directed corpus (first), then random programs
 
 def _f(g, vals, kind='r', im=None, shape=None):
@@ -2672,6 +3030,8 @@ def _run(ctx):
                               {'pipeline': name, 'params': params, 'combo': combo})
     run_reuse_sweep(ctx, default)
     run_weighted_sweep(ctx, default)
+    run_select_tie(ctx)
+    run_cache_tie(ctx)
 
 
 def run_reuse_sweep(ctx, default):
@@ -2701,6 +3061,24 @@ def run_reuse_sweep(ctx, default):
 
 
 def replay(ctx, case):
+    if 'select' in case:
+        obs, bad = check_select(None, case['select'])
+        for key, what in bad:
+            print('  fails:', key, '-', what)
+        return not bad
+    if 'select_real_big' in case:
+        from hcipy._math import fft as F
+        x = _select_input({'func': 'fft2', 'big': True, 'dtype': 'complex64'})
+        with config(method=METHODS[0]):
+            a = F.fft2(x)
+        with config(method=case['select_real_big']):
+            b = F.fft2(x)
+        return bool(a.dtype == b.dtype and np.max(np.abs(a - b)) <= 2e-4 * np.max(np.abs(a)))
+    if 'cache' in case:
+        rows, bad = check_cache(None, case['cache'], case['params'], case['pre'], case['alloc'], case['via_config'], case['new_style'], case['script'])
+        for key, what in bad:
+            print('  fails:', key, '-', what)
+        return not bad
     if 'weighted' in case:
         bad = check_weighted(case['weighted'], case['side'], case['transform'], case['params'], [case['combo']])
         for part, combo, what in bad:
